@@ -105,6 +105,17 @@ def run(ctx, info):
         g = IdGenerator()
         seq = [(eidlib.rand_tree(rng, max_depth=3), rng.choice(['', 'a'])) for _ in range(rng.randint(2, 5))]
         for t, p in seq:
+            if rng.random() < 0.25:
+                # a rewrite that stops half way (a comment node inside the tree makes the rewriter raise, before and after
+                # any change to the library): the next rewrite on the same object must not see what it left behind
+                from lxml import etree as _et
+                el = eidlib.to_etree(t)
+                inner = [e for e in el.iter() if isinstance(e.tag, str)]
+                inner[rng.randrange(len(inner))].append(_et.Comment('x'))
+                try:
+                    g.rewrite_all_eids(el, p)
+                except Exception:
+                    pass
             a = eidlib.real_rewrite(t, p, gen_obj=g)
             b = eidlib.real_rewrite(t, p)
             if a != b:
